@@ -4,6 +4,7 @@ fn main() {
     let code = match args.prop.as_str() {
         "C01" => simx::c01::run_check(&args),
         "C02" => simx::c02::run_check(&args),
+        "C03" => simx::c03::run_check(&args),
         "C16" => simx::c16::run_check(&args),
         p => vx::machinery(&format!("simx does not serve {p}")),
     };
